@@ -19,7 +19,7 @@ def gen_delays(rng, n_sets=1, skew=None):
     if rng.random() < 0.3:      # values that are not exactly representable (SDF decimals): float32 and float64 tables round differently
         for _ in range(rng.randint(1, 3)): rows.append([rng.choice([0.1, 0.137, 1.3, 2.7, 0.05, 3.333]) for _ in range(4)])
     return {'n_sets': n_sets, 'rows': rows, 'skew': skew, 'f32': rng.random() < 0.5, 'ndim3': n_sets == 1 and rng.random() < 0.3,
-            'short': rng.choice([0, 0, 0, 0, 1, 3])}      # > 0: the array covers all lines but the last few (the simulator pads with zero delay)
+            'short': rng.choice([0, 0, 0, 0, 1, 3]), 'layout': rng.choice(['c', 'c', 'c', 'fortran', 'strided', 'readonly'])}      # > 0: the array covers all lines but the last few (the simulator pads with zero delay)
 
 
 def gen_caps(rng, p_fault=0.5):
@@ -32,7 +32,7 @@ def gen_caps(rng, p_fault=0.5):
     vec = [rng.choice([4, 4, 4, 8, 16, 32, 64]) for _ in range(n)]
     if rng.random() < 0.02: vec[rng.randrange(n)] = 1024
     return {'default': 16, 'vec': vec, 'plus3': rng.random() < 0.5,     # False: the documented length len(circuit.lines)
-            'dtype': rng.choice(['list', 'list', 'int64', 'int32', 'uint32', 'uint16', 'uint8', 'int8'])}
+            'dtype': rng.choice(['list', 'list', 'int64', 'int32', 'uint32', 'uint16', 'uint8', 'int8', 'tuple']), 'readonly': rng.random() < 0.3}
 
 
 def gen_stim(rng, n=None):
